@@ -100,7 +100,7 @@ fn one_text(ctx: &Ctx, acc: &mut Acc, l: L, lang: &text2num::Language, text: &st
     }
     // short texts also at the improper and the very large thresholds (the public rewriting entry points and the
     // search they are compared with must read the threshold alike)
-    let thrs: &[f64] = if toks.len() <= 5 { &[0.0, 10.0, 1000.0, f64::INFINITY, f64::NEG_INFINITY, f64::NAN] } else { &[0.0, 10.0] };
+    let thrs: &[f64] = if toks.len() <= 5 { &[0.0, 10.0, 1000.0, 5.5, 1.5, f64::INFINITY, f64::NEG_INFINITY, f64::NAN] } else { &[0.0, 10.0] };
     for &t in thrs {
         acc.transitions += toks.len() as u64;
         acc.traces += 3;
@@ -163,7 +163,7 @@ fn one_stream(ctx: &Ctx, acc: &mut Acc, l: L, lang: &text2num::Language, syms: &
     acc.states += 1;
     let h: Vec<HTok> = syms.iter().enumerate().map(|(i, w)| HTok::new(i, w)).collect();
     let n = h.len();
-    for &t in &[0.0, 10.0, 1000.0, 25.5, f64::INFINITY, f64::NAN] {
+    for &t in &[0.0, 10.0, 1000.0, 25.5, 5.5, 1.5, f64::INFINITY, f64::NAN] {
         acc.transitions += n as u64;
         acc.traces += 1;
         let Ok((occ, res)) = guard(|| (stream::find(&h, lang, t), replace_numbers_in_stream(h.clone(), lang, t))) else { continue };
